@@ -77,6 +77,13 @@ Definition run_clflags (c : bool * bool * list nat * bool * bool) : nat :=
   if negb (leqb Nat.eqb (cluster_asdict_keys t v) ks) then 1
   else if negb (Bool.eqb (fst (cluster_flags_of_keys ks)) t' && Bool.eqb (snd (cluster_flags_of_keys ks)) v') then 2
   else if negb (Bool.eqb t t' && Bool.eqb v v') then 3 else 0.
+(* a numbered family with n members: the order in which h5py iterates the sub-group names (their numeric suffixes) is the
+   alphabetical order of the decimal names, and reading by number restores 0..n-1 *)
+Definition run_family (c : nat * list nat) : nat :=
+  let '(n, iterated) := c in
+  if negb (leqb Nat.eqb (read_alphabetical (write_family digits (seq 0 n))) iterated) then 1
+  else if negb (leqb (fun a b => match a, b with Some x, Some y => Nat.eqb x y | _, _ => false end)
+                     (read_by_number lnat_eqb digits (write_family digits (seq 0 n)) n) (map Some (seq 0 n))) then 2 else 0.
 Definition keyeqb (a b : vkey Z) : bool :=
   let '(a1, a2, a3, a4) := a in let '(b1, b2, b3, b4) := b in
   leqb Z.eqb a1 b1 && leqb Z.eqb a2 b2 && leqb Z.eqb a3 b3 && leqb Z.eqb a4 b4.
@@ -651,6 +658,97 @@ def yaml_corpus(ck, rng, V):
                 {"origin": origin, "cluster": cl}, key="c13-corr-clusterflags-%d" % c)
 
 
+def numbered_families(srcdir):
+    """names of the numbered sub-group / dataset families that the addhdf5 writers of the CURRENT source create
+    ('<prefix>-{}'.format(n)), per file"""
+    import re
+    found = {}
+    for fn in sorted(os.listdir(srcdir)):
+        if not fn.endswith(".py"): continue
+        tree = ast.parse(open(os.path.join(srcdir, fn)).read())
+        for node in ast.walk(tree):
+            if isinstance(node, ast.FunctionDef) and node.name == "addhdf5":
+                for c in ast.walk(node):
+                    if isinstance(c, ast.Call) and isinstance(c.func, ast.Attribute) and c.func.attr == "format":
+                        for k in ast.walk(c.func.value):
+                            if isinstance(k, ast.Constant) and isinstance(k.value, str) and re.search(r"-\{\}$", k.value):
+                                found.setdefault(fn, set()).add(k.value)
+    return {k: sorted(v) for k, v in found.items()}
+
+
+def many_member_families(ck, rng, V):
+    """calculators with >= 11, >= 21 (and >= 101) members of every numbered HDF5 family, distinct data per member"""
+    import onsager
+    from onsager import crystal, GFcalc, OnsagerCalc, PowerExpansion as PE
+    fams = numbered_families(os.path.dirname(onsager.__file__))
+    ck.extra["numbered_hdf5_families"] = fams
+    covered = {"GFcalc.py": ["jump-{}"]}
+    for fn, names in fams.items():
+        for nmf in names:
+            if nmf not in covered.get(fn, []):
+                ck.broken_proof = "numbered HDF5 family %r written by %s is not exercised with > 10 members by harness/c13.py" % (nmf, fn)
+    cells = [("oblique-bravais-2d", lambda: crystal.Crystal(np.array([[1., 0.31], [0., 1.13]]), [np.array([0., 0.])]), 8),
+             ("triclinic-bravais-3d", lambda: crystal.Crystal(np.array([[1., 0.2, 0.3], [0., 1.1, 0.15], [0., 0., 1.27]]), [np.array([0., 0., 0.])]), 3)]
+    terms, meta = [], []
+    for label, mk, nmax in cells:
+        crys = mk()
+        sh = gen.shells(crys, 0, nmax=nmax)
+        wants = [11, 21, 101] if (crys.dim == 2 or not ck.quick) else [11, 21]
+        for want in wants:
+            # a Bravais lattice with only the inversion: one jump type per neighbour distance
+            jn, k = None, want - 1
+            while k < len(sh):
+                cut = sh[k] + 1e-4
+                j = crys.jumpnetwork(0, cut)
+                if len(j) >= want: jn = j; break
+                k += max(1, want - len(j))
+            if jn is None: raise RuntimeError("cannot build %d jump types on %s" % (want, label))
+            sl = crys.sitelist(0)
+            base = {"calculator": label, "crystal": repr(crys), "cutoff": cut, "jump_types": len(jn)}
+            nr = ck.nprng(7000 + want + 1000 * crys.dim)
+            f = h5file("fam%s%d" % (label[:3], want))
+            try:
+                g0 = GFcalc.GFCrystalcalc(crys, 0, sl, jn, Nmax=4)
+                g0.addhdf5(f.create_group("GF")); g1 = GFcalc.GFCrystalcalc.loadhdf5(crys, f["GF"])
+                tag = "T3Djump-" if crys.dim == 3 else "T2Djump-"
+                iterated = [int(k[len(tag):]) for k in f["GF"] if k.startswith(tag)]
+                terms.append("(%s, %s)" % (coq_nat(len(jn)), nl(iterated))); meta.append(base)
+                bad = []
+                if len(g1.Taylorjumps) != len(g0.Taylorjumps): bad.append("number of Taylorjumps %d/%d" % (len(g0.Taylorjumps), len(g1.Taylorjumps)))
+                for n, (t0, t1) in enumerate(zip(g0.Taylorjumps, g1.Taylorjumps)):
+                    if deep_diff(taylor_dict(t0), taylor_dict(t1)): bad.append("Taylorjumps[%d]" % n)
+                # distinct rate per jump type
+                pre = np.ones(1); bE = np.zeros(1); preT = nr.uniform(0.5, 2.0, len(jn)); bET = np.linspace(1.0, 2.5, len(jn)) + nr.uniform(0, 0.01, len(jn))
+                g0.SetRates(pre, bE, preT, bET); g1.SetRates(pre, bE, preT, bET)
+                dD = float(np.abs(g0.Diffusivity() - g1.Diffusivity()).max())
+                dG = max(abs(g0(0, 0, dx) - g1(0, 0, dx)) for dx in [np.zeros(crys.dim)] + [jl[0][1] for jl in jn[:6]])
+                ck.case(key=("family", label, want), nontrivial=True, kind="family:%s-%d" % (label, want),
+                        sample={"object": "GFCrystalcalc", **base, "max|dD|": dD, "max|dG|": float(dG)} if want == 11 and crys.dim == 2 else None)
+                if bad or dD > 1e-12 * max(1.0, float(np.abs(g0.D).max())) or dG > 1e-12:
+                    V("GFCrystalcalc with %d symmetry-unique jump types is not reproduced by save/load: %s; |dD| %.3g, |dG| %.3g "
+                      "(HDF5 iterates 'jump-<n>' sub-groups alphabetically: 0, 1, 10, 11, 2, ...)" % (len(jn), bad[:4], dD, dG),
+                      {**base, "preT": preT.tolist(), "betaeneT": bET.tolist(), "differing": bad[:12], "dD": dD, "dG": float(dG),
+                       "subgroup_iteration_order": iterated[:14]}, key="c13-numbered-family-order")
+                # the same inside a VacancyMediated file (cheap enough in 2-D with 11 types; 3-D in the thorough tier)
+                if want == 11 and (crys.dim == 2 or not ck.quick):
+                    d0 = OnsagerCalc.VacancyMediated(crys, 0, sl, jn, 1)
+                    d0.addhdf5(f.create_group("D")); d1 = OnsagerCalc.VacancyMediated.loadhdf5(f["D"])
+                    a = list(random_thermo(d0, nr)); a[3] = bET - bET.min() + 1.0
+                    r0, r1 = d0.Lij(*[x.copy() for x in a]), d1.Lij(*[x.copy() for x in a])
+                    dd = max(float(np.abs(np.asarray(x) - np.asarray(y)).max()) for x, y in zip(r0, r1))
+                    ck.case(key=("family-vm", label, want), nontrivial=True, kind="family:vm-%s" % label)
+                    if dd > 1e-12:
+                        V("VacancyMediated with %d jump types: reloaded calculator returns different Lij (max |diff| %.3g)" % (len(jn), dd),
+                          {**base, "input": [x.tolist() for x in a]}, key="c13-numbered-family-order")
+            except Exception as e:
+                V("save/load of a calculator with %d jump types raises %r" % (len(jn), e), base, key="c13-numbered-family-exception")
+            finally:
+                f.close()
+    codes = run_nat_cases(ck, "family", IMPORTS, "run_family", terms, chunk=20)
+    for m, c in zip(meta, codes):
+        if c: V("h5py's iteration order of a numbered family / reading by number differs from the model (code %d)" % c, m, key="c13-corr-family-%d" % c)
+
+
 def run(ck):
     V = Once(ck)
     ck.rule = ("codecs: random nested lists (well-formed / trailing empty / middle empty / all empty / empty), arbitrary index arrays, "
@@ -670,6 +768,10 @@ def run(ck):
         evaluator(ck, rng, V)
     except CoqFailure as e:
         ck.broken_proof = "correspondence index arrays: %s" % e
+    try:
+        many_member_families(ck, rng, V)
+    except CoqFailure as e:
+        ck.broken_proof = "correspondence numbered families: %s" % e
     try:
         yaml_corpus(ck, rng, V)
     except CoqFailure as e:
